@@ -224,6 +224,7 @@ let p_op (toks : string list) : op =
   | ["into_iter"; sc] -> OIntoIter (p_script sc)
   | ["to_vec"] -> OToVec | ["debug"] -> ODebug
   | ["new"] -> ONew
+  | ["default"] -> ONew          (* Default::default() is Self::new() *)
   | ["from_array"; xs] -> OFromArray (p_elems xs)
   | ["from_iter"; xs] -> OFromIter (p_elems xs)
   | ["clone_drop"] -> OCloneDropClone | ["clone_keep"] -> OCloneKeepClone
